@@ -2,10 +2,17 @@
 rendering to script text, and the seeded scenario generator.  One line carries both forms
     script m <hex of the rendered text> ## <section> / <section> / …
 the C++ harness (harness/callrec.cpp) reads the hex, the Lean driver (`driver callrec`) what follows `##`.
+Label k is declared as `<prefix><k>` (prefix: lower-case letters, default `t`; another prefix is announced to
+the driver by a token `@<prefix>` in front of the first section).  Host calls name a label by its text; a text
+that is not exactly `<prefix><k>` with k a declared label — a larger k, or the name of a declared label
+spelled with other letter case (`LAB2`, `Lab2`, `lAb2`) — is not a label of the script.
 
 Targets are strings `l3 v3 g3 p3 r3` = local.v3 level.v3 game.v3 parm.v3 group.v3; values `i<int>`,
 `s<letters>`, `n` (NIL).  Instructions are tuples:
-  ("set", tgt, val) ("print", tgt) ("wait", ms) ("thread", tgt, label, [tgt…]) ("end",) ("endlit", val) ("endvar", tgt)"""
+  ("set", tgt, val) ("print", tgt) ("wait", ms) ("thread", tgt, label, [tgt…]) ("end",) ("endlit", val) ("endvar", tgt)
+  ("cthread", tgt, missing-label, [tgt…], name): `thread <name>` where <name> is a case variant of a declared
+  label's name (not a label: the statement is a script error that is skipped); for the model a start at the
+  missing label"""
 from vlib.schedgen import engine_ms, secs
 
 SCOPES = {"l": "local", "v": "level", "g": "game", "p": "parm", "r": "group"}
@@ -23,12 +30,31 @@ def val_src(v):
     return '"%s"' % v[1:]
 
 
-def stmt(ins):
+PREFIXES = ["t", "t", "lab", "wave", "go"]
+
+
+def case_variants(name):
+    """spellings of `name` (lower-case letters + digits) that differ from it by letter case only"""
+    res = [name.upper()]
+    if name.capitalize() not in res:
+        res.append(name.capitalize())
+    alt = "".join(c.upper() if i % 2 else c for i, c in enumerate(name))
+    alt2 = "".join(c.upper() if i % 2 == 0 else c for i, c in enumerate(name))
+    last = "".join(c.upper() if c.isalpha() and not name[i + 1].isalpha() else c for i, c in enumerate(name[:-1])) + name[-1]
+    for v in (alt, alt2, last):
+        if v != name and v not in res:
+            res.append(v)
+    return [v for v in res if v != name]
+
+
+def stmt(ins, prefix="t"):
     k = ins[0]
     if k == "set": return "%s = %s" % (tgt_src(ins[1]), val_src(ins[2]))
     if k == "print": return 'println "p" %s' % tgt_src(ins[1])
     if k == "wait": return "wait %s" % secs(ins[1])
-    if k == "thread": return ("%s = thread t%d %s" % (tgt_src(ins[1]), ins[2], " ".join(tgt_src(a) for a in ins[3]))).rstrip()
+    if k == "thread": return ("%s = thread %s%d %s" % (tgt_src(ins[1]), prefix, ins[2], " ".join(tgt_src(a) for a in ins[3]))).rstrip()
+    # (statement form: what an assignment would store after the failed start is the VM's business, C04)
+    if k == "cthread": return ("thread %s %s" % (ins[4], " ".join(tgt_src(a) for a in ins[3]))).rstrip()
     if k == "end": return "end"
     if k == "endlit": return "end %s" % val_src(ins[1])
     if k == "endvar": return "end %s" % tgt_src(ins[1])
@@ -40,26 +66,31 @@ def tok(ins):
     if k == "set": return "=%s:%s" % (ins[1], ins[2])
     if k == "print": return "P%s" % ins[1]
     if k == "wait": return "w%d" % engine_ms(ins[1])
-    if k == "thread": return "t%s:%d" % (ins[1], ins[2]) + (":" + ",".join(ins[3]) if ins[3] else "")
+    if k in ("thread", "cthread"): return "t%s:%d" % (ins[1], ins[2]) + (":" + ",".join(ins[3]) if ins[3] else "")
     if k == "end": return "e"
     if k == "endlit": return "e=%s" % ins[1]
     if k == "endvar": return "e@%s" % ins[1]
     raise ValueError(ins)
 
 
-def render(prog):
+def render(prog, prefix="t"):
     """prog: list of (params, body); section 0 is the code in front of the first label (no parameters)"""
+    assert prefix.isalpha() and prefix.islower()
     out = []
     for i, (params, body) in enumerate(prog):
         if i > 0:
-            out.append(("t%d %s" % (i, " ".join(tgt_src(p) for p in params))).rstrip() + ":")
-        out += [stmt(x) for x in body]
+            out.append(("%s%d %s" % (prefix, i, " ".join(tgt_src(p) for p in params))).rstrip() + ":")
+        for x in body:
+            if x[0] == "cthread":
+                assert x[2] >= len(prog), "cthread: a missing label for the model"
+                assert x[4].lower() in ["%s%d" % (prefix, j) for j in range(1, len(prog))] and x[4] != x[4].lower(), "cthread: a case variant of a declared label"
+        out += [stmt(x, prefix) for x in body]
     return "\n".join(out) + "\n"
 
 
-def script_line(prog, name="m"):
+def script_line(prog, name="m", prefix="t"):
     abstract = " / ".join(("(%s) " % ",".join(params) + " ".join(tok(x) for x in body)).rstrip() for params, body in prog)
-    return "script %s %s ## %s" % (name, render(prog).encode().hex(), abstract)
+    return "script %s %s ## %s%s" % (name, render(prog, prefix).encode().hex(), "" if prefix == "t" else "@%s " % prefix, abstract)
 
 
 def gen_tgt(rng, local_bias=0.5):
@@ -137,7 +168,16 @@ def gen_prog(rng):
 def gen_case(rng):
     prog = gen_prog(rng)
     nl = len(prog) - 1
-    lines = ["reset", script_line(prog)]
+    prefix = rng.choice(PREFIXES)
+    lab = lambda k: "%s%d" % (prefix, k)
+    if rng.random() < 0.25:
+        # a script-level start at a case variant of a declared label's name
+        params, body = prog[rng.randint(1, nl)]
+        pos = rng.randint(0, len(body) - 1 if body[-1][0] in ("end", "endlit", "endvar") else len(body))
+        known = list(params) or ["l0"]
+        name = rng.choice(case_variants(lab(rng.randint(1, nl))))
+        body.insert(pos, ("cthread", gen_tgt(rng, 0.7), nl + rng.randint(1, 3), [rng.choice(known) for _ in range(rng.randint(0, 2))], name))
+    lines = ["reset", script_line(prog, prefix=prefix)]
     nrec = 0
     focus = rng.randint(1, nl)
     nargs = rng.randint(3, 7)
@@ -148,18 +188,24 @@ def gen_case(rng):
             # argument counts of the calls of one scenario tend to go down: later calls leave parameters unmatched
             k = rng.randint(0, nargs)
             nargs = max(0, nargs - rng.randint(0, 2))
-            lines.append("call t%d new %s" % (l, " ".join(rng.choice(VALS) for _ in range(k))))
+            lines.append("call %s new %s" % (lab(l), " ".join(rng.choice(VALS) for _ in range(k))))
             nrec += 1
         elif r < 0.6:
             lines.append(("call - new %s" % " ".join(rng.choice(VALS) for _ in range(rng.randint(0, 4)))).rstrip())
             nrec += 1
         elif r < 0.78 and nrec:
             # the host uses one of its records again, whatever it holds by now (pending results included)
-            lab = "t%d" % rng.randint(1, nl) if rng.random() < 0.85 else "-"
-            lines.append("call %s r%d" % (lab, rng.randrange(nrec)))
-        elif r < 0.84:
-            lines.append(("call t%d new %s" % (nl + rng.randint(1, 3), " ".join(rng.choice(VALS) for _ in range(rng.randint(0, 2))))).rstrip()
-                         if rng.random() < 0.6 or not nrec else "call t%d r%d" % (nl + rng.randint(1, 3), rng.randrange(nrec)))
+            l = lab(rng.randint(1, nl)) if rng.random() < 0.85 else "-"
+            lines.append("call %s r%d" % (l, rng.randrange(nrec)))
+        elif r < 0.87:
+            # a label that does not exist: an index past the last label, or the name of a declared label
+            # spelled with other letter case (upper, capitalised, mixed)
+            if rng.random() < 0.45:
+                missing = lab(nl + rng.randint(1, 3))
+            else:
+                missing = rng.choice(case_variants(lab(focus if rng.random() < 0.5 else rng.randint(1, nl))))
+            lines.append(("call %s new %s" % (missing, " ".join(rng.choice(VALS) for _ in range(rng.randint(0, 2))))).rstrip()
+                         if rng.random() < 0.6 or not nrec else "call %s r%d" % (missing, rng.randrange(nrec)))
         else:
             lines.append("step %d" % rng.choice([50, 125, 125, 250, 300]))
     lines += ["step 1000", "step 1000"]
